@@ -55,12 +55,13 @@ static int cmp(const void * a, const void * b, void * p)
 
 #define MAXV (4 * MAXE)
 static int vis_ord[MAXV], vis_id[MAXV], vis_n, vis_stop;
+static int vsign = 1;   /* sign of the visitor's non-zero answer (header vsign); the result is printed times vsign */
 static int visit(const void * e, cstl_bintree_visit_order_t ord, void * p)
 {
     (void)p;
     if (vis_n < MAXV) { vis_ord[vis_n] = (int)ord; vis_id[vis_n] = idof(e); }
     vis_n++;
-    return (vis_stop > 0 && vis_n == vis_stop) ? vis_stop : 0;
+    return (vis_stop > 0 && vis_n == vis_stop) ? vsign * vis_stop : 0;
 }
 /* clear callback: log, poison, free -- any later access is an ASan report */
 static void clr(void * e, void * p)
@@ -134,7 +135,7 @@ static void run_case(const struct h_case * c)
 {
     int i, k, started = 0;
 
-    nkeys = 0; rb = 0; cmpmode = 0; cmp_calls = 0;
+    nkeys = 0; rb = 0; cmpmode = 0; cmp_calls = 0; vsign = 1;
     memset(pool, 0, sizeof(pool));
     memset(seen, 0, sizeof(seen));
     for (i = 0; i < c->nlines; i++) {
@@ -147,6 +148,7 @@ static void run_case(const struct h_case * c)
         }
         if (h_weq(l, 0, "kind")) { rb = h_weq(l, 1, "rb"); continue; }
         if (h_weq(l, 0, "cmpmode")) { cmpmode = a; continue; }
+        if (h_weq(l, 0, "vsign")) { vsign = a < 0 ? -1 : 1; continue; }
         if (!started) {
             if (rb) cstl_rbtree_init(&rt, cmp, NULL, offsetof(struct elem, rn));
             else cstl_bintree_init(&bt, cmp, NULL, offsetof(struct elem, bn));
@@ -193,7 +195,7 @@ static void run_case(const struct h_case * c)
                                          dirv ? CSTL_BINTREE_FOREACH_DIR_REV : CSTL_BINTREE_FOREACH_DIR_FWD)
                    : cstl_bintree_foreach(&bt, visit, NULL,
                                           dirv ? CSTL_BINTREE_FOREACH_DIR_REV : CSTL_BINTREE_FOREACH_DIR_FWD);
-            printf("ok %d", r);
+            printf("ok %d", vsign * r);
             for (k = 0; k < vis_n && k < MAXV; k++) printf(" %d %d", vis_ord[k], vis_id[k]);
         }
         else if (h_weq(l, 0, "clear")) {
